@@ -41,6 +41,23 @@ structure BBConst (K : Type) where
 is taken to be in Kelvin (`scale = 1`). -/
 def tempKelvin (value scale : K) : K := value * scale
 
+/-- a quantity-valued argument as the caller spells it: a bare number (taken to be in the target unit
+already), a `Quantity` whose unit is `scale` × the target unit (K ↦ 1, mK ↦ 1/1000; for a beam filling
+factor: unscaled ↦ 1, percent ↦ 1/100, cm/m ↦ 1/100, arcsec²/arcmin² ↦ 1/3600, …), or a `Quantity` in a unit
+that cannot be converted to the target unit (metre, °C without equivalencies, …) -/
+inductive QIn (K : Type)
+  | number (v : K)
+  | quantity (v scale : K)
+  | incompatible (v : K)
+  deriving Repr
+
+/-- `units.validate_quantity(what, unit).value` / `_process_generic_param(pval, unit)`: the physical value in
+the target unit; `Quantity.to` raises `UnitConversionError` for an incompatible unit -/
+def QIn.value : QIn K → Except Err K
+  | .number v => .ok v
+  | .quantity v s => .ok (tempKelvin v s)
+  | .incompatible _ => .error .unitError
+
 /-- `blackbody_nu(λ Å, T)` at one wavelength: `B_ν(T)` in FNU per steradian.
 
 * `np.any(temp < 0)` raises `ValueError`;
@@ -116,6 +133,13 @@ the table is built with the constructor's defaults (`keep_neg=False`) -/
 def mkThermal (tempValue tempScale beamFill : K) (x y : List K) : Thermal K :=
   { temp := tempKelvin tempValue tempScale, beamFill := beamFill, emis := (mkTable x y false).1 }
 
+/-- the constructor with its arguments as spelt by the caller: temperature (→ K) and beam filling factor
+(→ unscaled dimensionless number) both go through `validate_quantity`; an incompatible unit raises -/
+def mkThermalQ (tq fq : QIn K) (x y : List K) : Except Err (Thermal K) := do
+  let t ← tq.value
+  let f ← fq.value
+  pure (mkThermal t 1 f x y)
+
 /-- `thermal_source()` evaluated at one wavelength:
 `SourceSpectrum(BlackBody1D, T) * SR_PER_ARCSEC2 * beam_fill_factor * self` -/
 def thermalSourceAt (C : BBConst K) (T : Transc K) (th : Thermal K) (lam : K) : Except Err K := do
@@ -135,7 +159,20 @@ inductive ThStep (K : Type)
   | setTemp (value scale : K)     -- `th.temperature = value * unit` (`validate_quantity(what, u.K)`)
   | setFill (f : K)               -- `th.beam_fill_factor = f`
   | query                         -- `th.thermal_source()`; leaves the element as it is
+  | refused                       -- an assignment whose setter raised: the attribute keeps its value
   deriving Repr
+
+/-- `th.temperature = what` -/
+def ThStep.ofTemp (q : QIn K) : ThStep K :=
+  match q.value with
+  | .ok t => .setTemp t 1
+  | .error _ => .refused
+
+/-- `th.beam_fill_factor = what` -/
+def ThStep.ofFill (q : QIn K) : ThStep K :=
+  match q.value with
+  | .ok f => .setFill f
+  | .error _ => .refused
 
 /-- the element after one step (thermal.py:48-70: plain attribute setters; `thermal_source` builds a new
 spectrum from the attributes and stores nothing) -/
@@ -143,6 +180,7 @@ def Thermal.step (th : Thermal K) : ThStep K → Thermal K
   | .setTemp v s => { th with temp := tempKelvin v s }
   | .setFill f => { th with beamFill := f }
   | .query => th
+  | .refused => th
 
 /-- what one query reports: `sp.meta['temperature']`, `sp.meta['beam_fill_factor']`, `sp(wavelengths)` -/
 def thermalQuery (C : BBConst K) (T : Transc K) (w : List K) (th : Thermal K) :
@@ -156,6 +194,7 @@ def thermalHistory (C : BBConst K) (T : Transc K) (w : List K) :
   | th, .query :: r => thermalQuery C T w th :: thermalHistory C T w th r
   | th, .setTemp v s :: r => thermalHistory C T w (th.step (.setTemp v s)) r
   | th, .setFill f :: r => thermalHistory C T w (th.step (.setFill f)) r
+  | th, .refused :: r => thermalHistory C T w th r
 
 /-! ### `ThermalSpectralElement.from_file`: which header keywords are read -/
 
